@@ -3698,9 +3698,9 @@ impl<'a> Parser<'a> {
         let mut name = None;
         if self.peek_token() != Token::LParen {
             if self.parse_keyword(Keyword::IN) {
-                storage_specifier = self.parse_identifier(false).ok()
+                storage_specifier = Some(self.parse_identifier(false)?)
             } else {
-                name = self.parse_identifier(false).ok();
+                name = Some(self.parse_identifier(false)?);
             }
 
             // Storage specifier may follow the name
@@ -3708,7 +3708,7 @@ impl<'a> Parser<'a> {
                 && self.peek_token() != Token::LParen
                 && self.parse_keyword(Keyword::IN)
             {
-                storage_specifier = self.parse_identifier(false).ok();
+                storage_specifier = Some(self.parse_identifier(false)?);
             }
         }
 
@@ -4288,7 +4288,7 @@ impl<'a> Parser<'a> {
         let table_name = self.parse_object_name(false)?;
 
         let referenced_table_name = if self.parse_keyword(Keyword::FROM) {
-            self.parse_object_name(true).ok()
+            Some(self.parse_object_name(true)?)
         } else {
             None
         };
@@ -5089,7 +5089,7 @@ impl<'a> Parser<'a> {
         let if_exists = self.parse_keywords(&[Keyword::IF, Keyword::EXISTS]);
         let name = self.parse_identifier(false)?;
         let storage_specifier = if self.parse_keyword(Keyword::FROM) {
-            self.parse_identifier(false).ok()
+            Some(self.parse_identifier(false)?)
         } else {
             None
         };
@@ -5808,13 +5808,13 @@ impl<'a> Parser<'a> {
         let on_cluster = self.parse_optional_on_cluster()?;
 
         let like = if self.parse_keyword(Keyword::LIKE) || self.parse_keyword(Keyword::ILIKE) {
-            self.parse_object_name(allow_unquoted_hyphen).ok()
+            Some(self.parse_object_name(allow_unquoted_hyphen)?)
         } else {
             None
         };
 
         let clone = if self.parse_keyword(Keyword::CLONE) {
-            self.parse_object_name(allow_unquoted_hyphen).ok()
+            Some(self.parse_object_name(allow_unquoted_hyphen)?)
         } else {
             None
         };
